@@ -11,6 +11,8 @@ Core-only.
     `coversOne`: exact label-wise equality, or a SAN whose *whole leftmost label* is `*`
     covering exactly one extra label; a declared name that itself starts with `*` is only
     covered by the identical SAN (Go treats it as an invalid candidate => exact match).
+    The secret state is abstract here; `Model/C17Sec.lean` computes it from the Secret object (type,
+    bytes under `tls.crt` / `tls.key` / `ca.crt`) as `cache.go GetTLSSecretContent` does.
 
 (b) `pkg/haproxy/types/global.go` `AcmeStorages` (items / itemsAdd / itemsDel with the pointer
     sharing between `items` and `itemsAdd`, the snapshot `Acquire` takes of a committed storage,
